@@ -37,7 +37,8 @@ TRUSTED = [
     "qutip.lindblad_dissipator on every run); that x' = -x/tau has the solution exp(-t/tau) is cited, not proved",
     "NOT modelled: qutip.mesolve / ODE integration, positivity (complete positivity of the semigroup), 'to solver "
     "tolerance', ControlAmpNoise / RandomNoise / ZZCrossTalk / DecoherenceNoise and process_noise's collection logic "
-    "(checked by the numeric oracle only), independence for more than two subsystems (proved for 2x2 and 2x3 registers)",
+    "(checked by the numeric oracle only), independence for registers of more than two subsystems (proved for the "
+    "bipartite registers 2x2, 2x3, 3x2, 3x3 with arbitrary states and collapse operators; checked numerically for 3 subsystems)",
     "inputs are exact rationals (dyadic in the harness); IEEE round-off of 1/t2 - 1/(2 t1) is not modelled "
     "(float test `== 0.0` agrees with the exact test away from 1-ulp neighbourhoods of t2 = 2 t1)",
     "environment: qutip.Options does not exist in qutip 5.3.1, so Processor.run_state(solver='mesolve') raises "
